@@ -44,7 +44,15 @@ func runSolver(s solverSpec, file string, timeoutS int) solveResult {
 	cmd.Run()
 	d := time.Since(t0).Seconds()
 	text := out.String()
-	first := strings.TrimSpace(strings.SplitN(strings.TrimSpace(text), "\n", 2)[0])
+	first := ""
+	for _, ln := range strings.Split(text, "\n") {
+		ln = strings.TrimSpace(ln)
+		if ln == "" || strings.HasPrefix(ln, "WARNING") || strings.HasPrefix(ln, "(warning") {
+			continue
+		}
+		first = ln
+		break
+	}
 	st := "error"
 	switch {
 	case first == "unsat":
